@@ -387,7 +387,10 @@ def check_cache_invalidation(ctx, rule: str, families: tuple[str, ...] = ("Graph
                             f"cached '{cname}' reads '{a}'; the copy's cached value is dropped" if ok else f"cached '{cname}' reads '{a}', which {f.cls.name}.{f.name} changes on the copy, but the copy keeps the receiver's cached '{cname}' (stale: it describes the ancestor, and a value computed later on the ancestor leaks into objects derived from it)",
                         )
     if n_pairs < 1:
-        raise AnalysisError(f"no (cached value, written attribute) pairs found for {rule}")
+        if only_classes is not None:
+            rep.ok(rule, f"{'/'.join(only_classes)}:no-cached-views", classes[0].loc() if classes else "src/hypergraph:1", "the class keeps no cached view that reads an attribute written by a derivation (nothing can go stale); adding one without invalidation is reported here")
+        else:
+            raise AnalysisError(f"no (cached value, written attribute) pairs found for {rule}")
 
 
 
